@@ -30,9 +30,12 @@ def main():
         print(out)
         sys.exit(3)
     result = {"property": pid, "seeded_id": sid}
+    demo_src = None
     try:
         demo_path = meta["demo_path"]
         demo_src = os.path.join(src, "demo_test.go")
+        if not os.path.exists(demo_src):
+            demo_src = os.path.join(src, os.path.basename(demo_path))
         os.makedirs(os.path.dirname(os.path.join(wt, demo_path)), exist_ok=True)
         shutil.copy(demo_src, os.path.join(wt, demo_path))
         run = meta["demo_run"].replace("go test", GO + " test -count=1", 1) if meta["demo_run"].strip().startswith("go test") else meta["demo_run"]
@@ -61,8 +64,9 @@ def main():
         sh("git -C /repo worktree remove --force %s" % wt, "/")
     dest = os.path.join("/verif/seeded", sid)
     os.makedirs(dest, exist_ok=True)
-    shutil.copy(os.path.join(src, "patch.diff"), os.path.join(dest, "patch.diff"))
-    shutil.copy(os.path.join(src, "demo_test.go"), os.path.join(dest, os.path.basename(meta["demo_path"])))
+    if os.path.realpath(src) != os.path.realpath(dest):
+        shutil.copy(os.path.join(src, "patch.diff"), os.path.join(dest, "patch.diff"))
+        shutil.copy(demo_src, os.path.join(dest, os.path.basename(meta["demo_path"])))
     meta["verification"] = result
     json.dump(meta, open(os.path.join(dest, "meta.json"), "w"), indent=1)
     print(json.dumps(result, indent=1))
